@@ -102,14 +102,15 @@ example : isOk (writeDump ({ exSys with pos := [⟨0, 0, 0⟩, ⟨1, 1, 1⟩] })
     written text returns the comment line, the scale factor, the lattice rows multiplied by it, the symbols line,
     the per-type counts, the coordinate mode and the coordinate rows grouped by type, every number at its printed
     precision; the positions it reconstructs are `scale · row` in Cartesian mode and `row · lattice` in direct
-    mode (with `poscar_scale`: the cell and the positions of the system).  Hypotheses on the strings: see
-    `PoscarStringsOk`; the printed scale factor is positive. -/
+    mode (with `poscar_scale`: the cell and the positions of the system).  A file is written only for a positive
+    scale factor (a negative one is, by the format's rules, the cell volume and not a multiplier).  Hypotheses on
+    the strings: see `PoscarStringsOk`; the printed scale factor is positive. -/
 theorem poscar_parse_write (s : Sys) (header : List String) (symbols : Option (List String)) (coordstyle : String)
     (scale : ℚ) (f : Fmt) (text : List Char) (h : writePoscar s header symbols coordstyle scale f = .ok text)
     (hs : PoscarStringsOk header symbols coordstyle) (hscale : 0 < fmtVal f scale)
     (hlen : s.atype.length = s.pos.length) (hty : ∀ t ∈ s.atype, 1 ≤ t ∧ t ≤ (s.natypes : Int)) :
     let p := poscarNums s (isCartTok (strTok coordstyle)) scale
-    scale ≠ 0 ∧ s.natoms ≠ 0 ∧ (∀ l, symbols = some l → l.length = s.natypes) ∧
+    0 < scale ∧ s.natoms ≠ 0 ∧ (∀ l, symbols = some l → l.length = s.natypes) ∧
     p.coords.length = s.natoms ∧ p.counts.foldl (· + ·) 0 = s.natoms ∧
     parsePoscar text = some (poscarExpected f header symbols coordstyle scale p) := by
   intro p
